@@ -40,7 +40,7 @@ Store == /\ Is("S")
                             \cup (IF known /\ ~Ge(v, cur[Ev.k]) THEN {<<"backwards", l>>} ELSE {})
             /\ cur' = Put(cur, Ev.k, v)
             /\ ver' = Put(ver, Ev.k, IF known THEN ver[Ev.k] + 1 ELSE 1)
-            /\ seen' = [x \in DOMAIN seen |-> seen[x]]
+            /\ seen' = [x \in (DOMAIN seen) \ {<<Ev.g, Ev.k>>} |-> seen[x]]    \* the actor's read is consumed by its write
 Next == Begin \/ Fetch \/ Store
 Spec == Init /\ [][Next]_vars
 HighWater == TLCSet(1, IF l > TLCGet(1) THEN l ELSE TLCGet(1))
